@@ -1976,7 +1976,8 @@ void SoPlexBase<R>::_solveRealForRationalStable(
       if(primalFeasible && dualFeasible)
       {
          SPX_MSG_INFO1(spxout, spxout << "Tolerances reached.\n");
-         return;
+         // leave the loop (not the function): basis statuses and objective value are finalised below
+         break;
       }
 
 
@@ -2917,7 +2918,8 @@ void SoPlexBase<R>::_solveRealForRationalBoostedStable(
       if(primalFeasible && dualFeasible)
       {
          SPX_MSG_INFO1(spxout, spxout << "Tolerances reached.\n");
-         return;
+         // leave the loop (not the function): basis statuses and objective value are finalised below
+         break;
       }
 
       // terminate if some limit is reached
